@@ -309,8 +309,10 @@ Print Assumptions C01_example_pipeline.
    Not covered by this statement: (i) term lists in which two terms have the SAME operator string with different
    coefficients (the code's re-hash branch; modelled, tied, certified per instance through
    C01_pipeline_exact_checked_partial); (ii) that the model returns `Some` (it returns None exactly where the
-   implementation raises or leaves a hyperedge without vertex on a cut edge, e.g. for a term with coefficient
-   0; checked per instance by the tie). *)
+   implementation raises or leaves a hyperedge without vertex on a cut edge; checked per instance by the tie).
+   Terms with prefactor 0 are included: the code (repo commit 2e422fd) and the model drop their single-term
+   diagrams before the compound diagram is built, and fall back to the BASE diagram of the full term list when
+   nothing remains; dropped terms do not change the Hamiltonian's coefficient function. *)
 Theorem C01_bipartite_exact : forall (t : rtree) (H : list pterm) (d : sd), NoDup (ids t) ->
   NoDup (map (fun tm : pterm => map (snd tm) (ids t)) H) ->
   from_hamiltonian_bipartite t H = Some d ->
@@ -329,3 +331,19 @@ Example C01_example_distinct_strings :
   length (nodup (list_eq_dec Nat.eq_dec) (map (fun tm : pterm => map (snd tm) (ids t)) H)) = length H.
 Proof. vm_compute. reflexivity. Qed.
 Print Assumptions C01_example_distinct_strings.
+
+(* zero prefactors: two of the four terms have prefactor 0 (one of them with a symbol); the model drops them, the
+   run satisfies the step preconditions, the result is certified against the FULL term list; and the Hamiltonian
+   whose prefactors are all 0 falls back to the BASE diagram of the full list (two vertices on the edge) *)
+Example C01_example_zero_prefactor :
+  let t := RNode 0 [RNode 1 []; RNode 2 []] in
+  let f := fun (l : list (nat * nat)) (v : nat) => match lookup v l with Some x => x | None => 2 end in
+  let H : list pterm :=
+           [(0%Q, 0, f [(0, 10); (1, 11)]); ((3 # 2)%Q, 1, f [(0, 12); (1, 11)]); (0%Q, 2, f [(1, 12); (2, 13)]); (1%Q, 0, f [(0, 12); (2, 13)])] in
+  let H0 : list pterm := [(0%Q, 0, f [(0, 10); (1, 11)]); (0%Q, 1, f [(0, 12)])] in
+  (length (live_terms H), pipeline_ok t H,
+   match from_hamiltonian_bipartite t H with Some d => Some (sd_wf t d, sd_check t H d, map (nverts_on d) [1; 2]) | None => None end,
+   match from_hamiltonian_bipartite t H0 with Some d => Some (sd_check t H0 d, map (nverts_on d) [1; 2]) | None => None end)
+  = (2, true, Some (true, true, [2; 2]), Some (true, [2; 2])).
+Proof. vm_compute. reflexivity. Qed.
+Print Assumptions C01_example_zero_prefactor.
